@@ -432,6 +432,10 @@ class Interp:
             return self._native(cls, args, kwargs)
         if issubclass(cls, BaseException):
             return cls(*args, **kwargs)
+        if cls is range and len(args) == 1 and isinstance(args[0], SV):
+            n = args[0]
+            ln = SV(z3.If(n.t >= 0, n.t, z3.IntVal(0)), "int")
+            return SymSeq(ln, lambda i: SV(z3.IntVal(i) if isinstance(i, int) else i, "int"), label="range")
         if cls in (list, tuple, dict, set, frozenset, enumerate, zip, range, reversed, itertools.chain):
             return self._native(cls, args, kwargs)
         if cls in (float, int, bool, str):
@@ -1000,6 +1004,21 @@ class Interp:
             b = b.value
         if op is ast.Add and (isinstance(a, SymStr) or isinstance(b, SymStr)):
             return SymStr((a, b))
+        if (isinstance(a, NativeModel) or isinstance(b, NativeModel)) and not isinstance(a, (SymStr,)) and not isinstance(b, (SymStr,)):
+            nm = {ast.Add: "add", ast.Sub: "sub", ast.Mult: "mul", ast.Div: "truediv"}.get(op)
+            if nm is not None:
+                if isinstance(a, NativeModel):
+                    f = getattr(a, ("__i%s__" % nm) if inplace and hasattr(a, "__i%s__" % nm) else "__%s__" % nm, None)
+                    if f is not None:
+                        r = f(b)
+                        if r is not NotImplemented:
+                            return r
+                if isinstance(b, NativeModel):
+                    f = getattr(b, "__r%s__" % nm, None)
+                    if f is not None:
+                        r = f(a)
+                        if r is not NotImplemented:
+                            return r
         if isinstance(a, SymObj) or isinstance(b, SymObj):
             nm = {ast.Add: "add", ast.Sub: "sub", ast.Mult: "mul", ast.Div: "truediv", ast.Pow: "pow",
                   ast.FloorDiv: "floordiv", ast.Mod: "mod"}.get(op)
